@@ -102,5 +102,9 @@ func ToString(err *Error) string {
 }
 
 func space(l int) string {
+	if l < 0 {
+		// an empty path element (e.g. goverter:map A. B) has no width
+		l = 0
+	}
 	return strings.Repeat(" ", l)
 }
